@@ -806,6 +806,21 @@ func genSign(r *Runner, prop string) {
 					jobs = append(jobs, s)
 				}
 			}
+			// the whole (signer's key) x (announced key spec) matrix: the chain's leaf carries the key, the signer announces the spec
+			for _, k := range keys {
+				for _, ks := range []signature.KeySpec{{Type: signature.KeyTypeRSA, Size: 2048}, {Type: signature.KeyTypeRSA, Size: 3072}, {Type: signature.KeyTypeRSA, Size: 4096},
+					{Type: signature.KeyTypeEC, Size: 256}, {Type: signature.KeyTypeEC, Size: 384}, {Type: signature.KeyTypeEC, Size: 521},
+					{Type: signature.KeyTypeRSA, Size: 1024}, {Type: signature.KeyTypeRSA, Size: 2560}, {Type: signature.KeyTypeEC, Size: 224}} {
+					ks := ks
+					if quick && strings.HasPrefix(k, "rsa4096") && local {
+						continue
+					}
+					s := base(f, local, k)
+					s.declaredSpec = &ks
+					s.label = fmt.Sprintf("matrix:key-%s-announces-%d-%d", strings.SplitN(k, "-", 2)[0], ks.Type, ks.Size)
+					jobs = append(jobs, s)
+				}
+			}
 			// pairs
 			for i, a := range muts {
 				for j, b := range muts {
